@@ -140,7 +140,8 @@ theorem tr_evalCheck (cfg : Cfg) (e : Node) (p : Option Pos) : Tr (evalCheck cfg
   · exact (same_checkRegex cfg _ _ _).2
 
 theorem tr_recordPattern (cfg : Cfg) (sy : Sym) (e : Node) : Tr (recordPattern cfg sy e) := by
-  refine Tr.errs (ext_recordPattern cfg sy e) ?_ ?_ <;> intro s <;> unfold recordPattern <;> simp only <;> split <;> rfl
+  refine Tr.errs (ext_recordPattern cfg sy e) ?_ ?_ <;> intro s <;> unfold recordPattern <;> simp only <;> split <;>
+    first | rfl | (split <;> rfl)
 
 /-- `leave (f s) k` -/
 theorem tr_leave {f k : St → St} (hf : Tr f) (hk : Tr k) : Tr (fun s => leave (f s) k) where
